@@ -15,6 +15,10 @@ from vlib.certs import V2Cert
 env.prepare()
 from admin.certificate import HSMCertificate, HSMCertificateV2ElementX509   # noqa: E402
 from cryptography.hazmat.primitives.asymmetric import ec as cec      # noqa: E402
+import time as _time                                                 # noqa: E402
+
+# the instant by which the code under test had been imported into this process
+IMPORTED_AT = _time.time()
 
 
 ID = "C07"
@@ -42,7 +46,8 @@ FLIP_FIELDS = {"quote": ["message", "custom_data", "signature"],
                "attestation": ["message", "key", "auth_data", "signature"]}
 REQUIRED_LABELS = {t: ["valid", "invalid:quote", "invalid:attestation",
                        "invalid:quoting_enclave", "invalid:platform_ca", "depth:1", "depth:2",
-                       "depth:3", "revalidated:same", "revalidated:other", "tz:utc", "tz:other"] + ["corr:" + k for k in sorted(set(CORR))]
+                       "depth:3", "revalidated:same", "revalidated:other", "tz:utc", "tz:other",
+                       "time-passes:expired-since-import", "time-passes:valid-since-import"] + ["corr:" + k for k in sorted(set(CORR))]
                    for t in ("quick", "thorough")}
 
 
@@ -407,6 +412,48 @@ def run_case(c):
     return Out(labels, nt)
 
 
+def time_passes_cases(tier, seed):
+    return [{"edge": e, "el": i, "inter": n} for e in ("expired-since-import",
+                                                         "valid-since-import")
+            for n in (0, 1, 2) for i in range(n + 1)]
+
+
+def run_time_passes(c):
+    """A validity window with an edge that lies between the moment the code was imported into
+    this process and the moment of validation: what counts is the time of validation."""
+    now = _time.time()
+    if now - IMPORTED_AT < 5:
+        _time.sleep(5 - (now - IMPORTED_AT))
+        now = _time.time()
+    edge = int(IMPORTED_AT + (now - IMPORTED_AT) / 2)
+    spec = {"root": 11, "leaf": 12, "att": 13, "inter": [14, 15][:c["inter"]], "auth": b"a",
+            "custom": b"c", "seed": b"s", "rd_tail_a": bytes(32), "rd_tail_q": bytes(32)}
+    base = V2Cert(spec)
+    nm = base.chain[c["el"] % len(base.chain)]
+    if c["edge"] == "expired-since-import":
+        spec["windows"] = {nm: ["abs", edge - 86400, edge]}
+    else:
+        spec["windows"] = {nm: ["abs", edge, edge + 86400]}
+    v = V2Cert(spec)
+    fpath = tmpfile("cert-time.json")
+    with open(fpath, "w") as f:
+        json.dump(v.to_dict(), f)
+    cert = HSMCertificate.from_jsonfile(fpath)
+    got = cert.validate_and_get_values(HSMCertificateV2ElementX509(v.root_element_map()))
+    g = got.get("quote")
+    want_valid = c["edge"] == "valid-since-import"
+    if g is None or (g[0] is True) != want_valid:
+        raise Violation("validity-judged-at-another-instant", "certificate %s %s %d s ago, the "
+                        "code was imported %d s ago; reported %r" % (
+                            nm, "expired" if not want_valid else "became valid",
+                            _time.time() - edge, _time.time() - IMPORTED_AT, g and g[:2]))
+    return Out(["time-passes:" + c["edge"]], True)
+
+
 def stages(tier):
-    return [HypStage("chains", lambda t: cases(t), run_case, {"quick": 200, "thorough": 4000},
+    from vlib.runner import EnumStage
+    return [EnumStage("time-passes", time_passes_cases, run_time_passes,
+                      exhaustive={"quick": True, "thorough": True},
+                      budget_s={"quick": 60, "thorough": 60}),
+            HypStage("chains", lambda t: cases(t), run_case, {"quick": 200, "thorough": 4000},
                      budget_s={"quick": 100, "thorough": 1200})]
